@@ -121,7 +121,7 @@ theorem poolConnectFail_failed (k : Kind) (i : Bool) (me s : Nat) (pl : Pool)
     (poolConnectFail k i me s pl).1.con = none ∧ (poolConnectFail k i me s pl).2.returned = none := by
   unfold poolConnectFail at hf ⊢
   cases hcon : pl.con with
-  | none => simp
+  | none => simp [hcon]
   | some c0 =>
     simp only [hcon] at hf ⊢
     by_cases ha : pl.pidAttr = true
